@@ -83,9 +83,10 @@ func (e *Env) createBody(op Op, q url.Values) map[string]any {
 	switch {
 	case strings.HasPrefix(mode, "vars-"):
 		plain, vars := e.renderVarsScript(op.Ps, mode)
+		plain += RenderScriptMeta(op)
 		body["script"] = map[string]any{"plain": plain, "vars": vars}
 	case op.Script || mode == "script":
-		body["script"] = map[string]any{"plain": e.RenderScript(op.Ps), "vars": map[string]any{}}
+		body["script"] = map[string]any{"plain": e.RenderScript(op.Ps) + RenderScriptMeta(op), "vars": map[string]any{}}
 	default:
 		ps := make([]any, 0, len(op.Ps))
 		force := false
@@ -451,6 +452,8 @@ func AmountHistory(seed int64, n int) []Op {
 // ViaSupports tells whether the entry point can express the operation (v1 has no forced postings, no
 // account metadata on create, no atEffectiveDate).
 func viaAdapt(op Op, via string) Op {
+	// the histories are shared by the cases of every entry point and scale: never write through op's slices
+	op.Ps = append([]Posting(nil), op.Ps...)
 	if op.K != "create" {
 		if strings.HasPrefix(via, "v1") {
 			op.API = "v1"
